@@ -639,7 +639,7 @@ impl C12 {
                 (Address::new_id(c.principal(*to)), frac(&wbal, *value_pm), METHOD_SEND, RawBytes::default())
             }
             TxSpec::Admin(a) => {
-                let (method, p) = self.admin_params(c, a);
+                let (method, p) = self.admin_params(c, m, a);
                 (waddr, TokenAmount::zero(), method, p)
             }
             TxSpec::SelfPropose { to, value_pm } => {
@@ -668,7 +668,11 @@ impl C12 {
         }
     }
 
-    fn admin_params(&self, c: &Ctx, a: &Admin) -> (u64, RawBytes) {
+    fn admin_params(&self, c: &Ctx, m: &Model, a: &Admin) -> (u64, RawBytes) {
+        // low bit of the selector decides: pick among current signers (3/4) or among all principals
+        let signerish = |f: u16| -> ActorID {
+            if f % 4 != 0 && !m.signers.is_empty() { m.signers[pick(f, m.signers.len())] } else { c.principal(f) }
+        };
         let ser = |x: &dyn erased::Ser| x.ser();
         match a {
             Admin::AddSigner { who, increase } => (
@@ -677,12 +681,12 @@ impl C12 {
             ),
             Admin::RemoveSigner { who, decrease } => (
                 6,
-                ser(&ms::RemoveSignerParams { signer: Address::new_id(c.principal(*who)), decrease: *decrease }),
+                ser(&ms::RemoveSignerParams { signer: Address::new_id(signerish(*who)), decrease: *decrease }),
             ),
             Admin::SwapSigner { from, to } => (
                 7,
                 ser(&ms::SwapSignerParams {
-                    from: Address::new_id(c.principal(*from)),
+                    from: Address::new_id(signerish(*from)),
                     to: Address::new_id(c.principal(*to)),
                 }),
             ),
@@ -730,9 +734,9 @@ impl Engine for C12 {
     fn strategy(&self, tier: Tier) -> BoxedStrategy<Case> {
         let max_ops = if tier == Tier::Quick { 30 } else { 45 };
         (
-            2u8..6,
-            1u8..5,
-            prop_oneof![1 => Just(1u8), 3 => 2u8..4],
+            2u8..9,
+            1u8..8,
+            prop_oneof![1 => Just(1u8), 3 => 2u8..4, 2 => 4u8..7],
             any::<bool>(),
             prop_oneof![Just(0u16), 1u16..400],
             -40i16..40,
@@ -866,10 +870,22 @@ impl Engine for C12 {
                         HashKind::Wrong => vec![7; 32],
                     };
                     let p = ms::TxnIDParams { id: ms::TxnID(id), proposal_hash: h };
-                    (c.sender(*by), if matches!(op, Op::Approve { .. }) { 3 } else { 4 }, RawBytes::serialize(&p).unwrap())
+                    let mut who = c.sender(*by);
+                    if let Some(tx) = model.pending.get(&id) {
+                        let is_approve = matches!(op, Op::Approve { .. });
+                        let cands: Vec<ActorID> = if is_approve {
+                            model.signers.iter().copied().filter(|s| !tx.approved.contains(s) && *s != c.wallet).collect()
+                        } else {
+                            tx.approved.iter().copied().filter(|s| *s != c.wallet).collect()
+                        };
+                        if *by % 4 != 0 && !cands.is_empty() {
+                            who = cands[pick(*by, cands.len())];
+                        }
+                    }
+                    (who, if matches!(op, Op::Approve { .. }) { 3 } else { 4 }, RawBytes::serialize(&p).unwrap())
                 }
                 Op::DirectAdmin { by, admin } => {
-                    let (method, p) = self.admin_params(&c, admin);
+                    let (method, p) = self.admin_params(&c, &model, admin);
                     (c.sender(*by), method, p)
                 }
             };
